@@ -94,4 +94,77 @@ theorem foldl_acc {σ} [AddMonoid σ] (m t : Nat) (zero : List (List σ)) (hz : 
     rw [List.foldl_cons, e i j hi hj, entry_addMat m t _ _ hacc h1 i j hi hj,
       entry_addMat m t _ _ hz hfe i j hi hj, hz0, zero_add, List.map_cons, List.sum_cons, add_assoc]
 
+
+theorem mapM_except_error_mem {α β ε} (f : α → Except ε β) (l : List α) (e : ε)
+    (h : l.mapM f = .error e) : ∃ a ∈ l, f a = .error e := by
+  induction l with
+  | nil => simp [List.mapM_nil, pure, Except.pure] at h
+  | cons a l ih =>
+    rw [List.mapM_cons] at h
+    cases hfa : f a with
+    | error e' =>
+      rw [hfa] at h
+      have : e' = e := by simpa [bind, Except.bind] using h
+      exact ⟨a, by simp, this ▸ hfa⟩
+    | ok b =>
+      rw [hfa] at h
+      cases hl : l.mapM f with
+      | error e' =>
+        rw [hl] at h
+        have : e' = e := by simpa [bind, Except.bind] using h
+        obtain ⟨x, hx, hfx⟩ := ih (this ▸ hl)
+        exact ⟨x, by simp [hx], hfx⟩
+      | ok bs =>
+        rw [hl] at h
+        simp [bind, Except.bind, pure, Except.pure] at h
+
+theorem mapM_id_ok_map {α ε} (vs : List α) :
+    (vs.map (Except.ok (ε := ε))).mapM id = .ok vs := by
+  induction vs with
+  | nil => rfl
+  | cons v vs ih => simp only [List.map_cons, List.mapM_cons, ih, id]; rfl
+
+theorem mapM_id_map {α β ε} (f : α → Except ε β) (l : List α) :
+    (l.map f).mapM id = l.mapM f := by
+  induction l with
+  | nil => rfl
+  | cons a l ih => simp only [List.map_cons, List.mapM_cons, ih, id]
+
+theorem except_list_cases {ε μ} (l : List (Except ε μ)) :
+    (∃ ms : List μ, l = ms.map .ok) ∨ (∃ (pre : List μ) (e : ε) (post : List (Except ε μ)), l = pre.map .ok ++ .error e :: post) := by
+  induction l with
+  | nil => exact .inl ⟨[], rfl⟩
+  | cons a l ih =>
+    cases a with
+    | error e => exact .inr ⟨[], e, l, rfl⟩
+    | ok m =>
+      rcases ih with ⟨ms, rfl⟩ | ⟨pre, e, post, rfl⟩
+      · exact .inl ⟨m :: ms, rfl⟩
+      · exact .inr ⟨m :: pre, e, post, rfl⟩
+
+
+
+theorem mapM_ok_map {α β ε} (f : α → Except ε β) (g : α → β) (l : List α)
+    (h : ∀ a ∈ l, f a = .ok (g a)) : l.mapM f = .ok (l.map g) := by
+  induction l with
+  | nil => rfl
+  | cons a l ih =>
+    simp only [List.mapM_cons, h a (by simp), ih (fun x hx => h x (by simp [hx])), List.map_cons]
+    rfl
+
+theorem mapM_map' {α β γ ε} (h : α → β) (f : β → Except ε γ) (l : List α) :
+    (l.map h).mapM f = l.mapM (fun x => f (h x)) := by
+  induction l with
+  | nil => rfl
+  | cons a l ih => simp only [List.map_cons, List.mapM_cons, ih]
+
+theorem eq_map_range_getD {α} (l : List α) (k : Nat) (d : α) (h : l.length = k) :
+    l = (List.range k).map fun i => (l[i]?).getD d := by
+  apply List.ext_getElem?
+  intro i
+  by_cases hi : i < k
+  · simp [hi, List.getElem?_eq_getElem (h ▸ hi)]
+  · simp [hi, List.getElem?_eq_none (by omega : l.length ≤ i)]
+
+
 end LinfaSpec.Fold
